@@ -6,6 +6,14 @@ export PATH=/opt/veriftools/go1.26.8/bin:$PATH
 cd /verif
 mkdir -p bin evidence replays
 (cd tools && go build -o /verif/bin/verif ./verif && go build -o /verif/bin/simgen ./simgen)
-# the machinery's own self-tests (scheduler determinism, map order, vsim, models)
+# the machinery's own self-tests (scheduler determinism and replay, map order, vsim, simdisk, reference models)
 (cd lib && go test -count=1 ./... >/verif/bin/selftest.log 2>&1) || { cat /verif/bin/selftest.log; echo "self-tests failed"; exit 1; }
+# informational (never fatal): the repository's own tests still pass on the instrumented copy with no simulation active
+(
+  W=/var/tmp/verif-work/selftest
+  rm -rf $W; mkdir -p $W
+  rsync -a --exclude .git /repo/ $W/src/ && /verif/bin/simgen -dir $W/src >/dev/null 2>&1 && cd $W/src && cp /repo/go.sum . 2>/dev/null
+  go test -vet=off -count=1 ./pkg/basm ./pkg/bmline ./pkg/bmnumbers ./pkg/bmreqs ./pkg/bmserialize ./pkg/bmstack ./pkg/bondgo ./pkg/bondmachine ./pkg/procbuilder ./pkg/simbox 2>&1 | grep -E "^(ok|FAIL|--- FAIL)" > /verif/bin/selftest-instrumented.log
+  rm -rf $W
+) || true
 echo "setup ok"
